@@ -264,6 +264,9 @@ def plan_C01(run):
     auth_small_models(run, [3, 5, 7, 23, 47, 59] if not run.thorough else [3, 5, 7, 23, 47, 59, 167, 227, 257])
     scen = CORPUS if os.path.exists(CORPUS) else None
     if run.thorough:
+        # the composed system: registration, login, world login with the keys each side derived, header traffic
+        run.model("session", "MCSession", "MCSession_q.cfg", workers=8, coverage=True, timeout=3400,
+                  exhaustive_note="composed Auth + Headers model: login in a small group, world login of the three expansions, header traffic both ways")
         extra = fresh_rare_classes(run)
         base = [json.loads(l) for l in open(CORPUS)] if scen else []
         scen = run.scen_file("corpus", base + extra)
@@ -472,8 +475,10 @@ def plan_C19(run):
     r = run.model("clientgroups", "MCClientGroups", "MCClientGroups_%s.cfg" % ("t" if run.thorough else "q"), workers=2)
     cg = run.scen_file("clientgroups", r.replay if run.thorough else r.replay[::3])
     corpus = CORPUS if os.path.exists(CORPUS) else None
+    ra = run.model("adversary-cases", "MCAdversary", "MCAdversary_cases.cfg", workers=1)
+    adv = run.scen_file("adversary", ra.replay)
     sets = [("auth", corpus, 3000 if run.thorough else 200), ("tamper", None, 6 if run.thorough else 1), ("pubkey", None, None),
-            ("adversary", None, None), ("interleave", None, None), ("clientgroups", cg, None), ("degenerate", None, None)]
+            ("adversary", adv, None), ("interleave", None, None), ("clientgroups", cg, None), ("degenerate", None, None)]
     run.assumptions.append("srp-fast-math is rug linked against the system GMP 6.2.1 through tools/gmpshim (bundled GMP 6.3.0 cannot be built offline: no m4)")
     for mode, scen, n in sets:
         a = run.harness(mode, scen=scen, n=n, extra=["det"], tag="pair-" + mode)
